@@ -8,7 +8,6 @@ from typing import TYPE_CHECKING, overload
 import ibis.expr.operations
 import ibis.expr.types
 import narwhals as nw
-import pyarrow as pa
 
 import tea_tasting.utils
 
@@ -24,6 +23,7 @@ _MEAN = "_mean__{}"
 _VAR = "_var__{}"
 _COV = "_cov__{}__{}"
 _DEMEAN = "_demean__{}"
+_GROUP_MEAN = "_group_mean__{}"
 
 
 class Aggregates(tea_tasting.utils.ReprMixin):  # noqa: D101
@@ -412,15 +412,20 @@ def _read_aggr_narwhals(
     var_cols: Sequence[str],
     cov_cols: Sequence[tuple[str, str]],
 ) -> list[dict[str, int | float]]:
-    if isinstance(data, pa.Table):
-        # Window functions over a table with several chunks can misalign rows.
-        data = data.combine_chunks()
     data = nw.from_native(data)
     if not isinstance(data, nw.LazyFrame):
         data = data.lazy()
 
     covar_cols = tuple({*var_cols, *itertools.chain(*cov_cols)})
     if len(covar_cols) > 0:
+        if group_col is not None:
+            # Group means are joined back explicitly: `mean().over(group_col)`
+            # can misalign the rows of PyArrow tables (chunked or large).
+            group_means = data.group_by(group_col).agg(**{
+                _GROUP_MEAN.format(col): nw.col(col).mean()
+                for col in covar_cols
+            })
+            data = data.join(group_means, on=group_col, how="left")
         data = (
             data.with_columns(**{
                 _DEMEAN.format(col): _demean_nw_col(col, group_col)
@@ -472,7 +477,7 @@ def _read_aggr_narwhals(
 def _demean_nw_col(col: str, group_col: str | None) -> nw.Expr:
     if group_col is None:
         return nw.col(col) - nw.col(col).mean()
-    return nw.col(col) - nw.col(col).mean().over(group_col)
+    return nw.col(col) - nw.col(_GROUP_MEAN.format(col))
 
 
 def _get_aggregates(
